@@ -1,0 +1,104 @@
+//go:build verif
+
+package stream
+
+// Machine-checked contracts for the stream stages (properties C45, C46).
+// Comment-only file: it adds no code to the package. Read by /verif/govc.
+
+// ---------------------------------------------------------------------------
+//@ property C45
+
+// ---- the stage output buffer: a FIFO queue ------------------------------------------
+// abstract view: element i of the queue is q.data[q.head+i], for 0 <= i < q_len(q)
+//@ spec func q_wf(q *queue) bool = 0 <= q.head && q.head <= len(q.data)
+//@ spec func q_len(q *queue) int = len(q.data) - q.head
+
+//@ func (*queue).push(q, v)
+//@   requires q_wf(q)
+//@   ensures wf: q_wf(q)
+//@   ensures appends-at-the-tail: q_len(q) == old(q_len(q)) + 1 && q.data[q.head + q_len(q) - 1] == v
+//@   ensures keeps-the-rest-in-order: forall i int :: 0 <= i && i < old(q_len(q)) ==> q.data[q.head + i] == old(q.data[q.head + i])
+
+//@ func (*queue).pop(q)
+//@   requires q_wf(q) && q_len(q) > 0
+//@   loop 1 invariant tail-zeroing: n <= i && i <= len(q.data) && q.data == old(q.data) && q.head == old(q.head) + 1 && forall j int :: 0 <= j && j < n ==> q.data[j] == old(q.data[q.head + 1 + j])
+//@   ensures wf: q_wf(q)
+//@   ensures returns-the-front: result == old(q.data[q.head])
+//@   ensures removes-exactly-the-front: q_len(q) == old(q_len(q)) - 1
+//@   ensures keeps-the-rest-in-order: forall i int :: 0 <= i && i < q_len(q) ==> q.data[q.head + i] == old(q.data[q.head + 1 + i])
+
+//@ func (*queue).peek(q)
+//@   requires q_wf(q) && q_len(q) > 0
+//@   ensures front: result == q.data[q.head]
+//@   modifies nothing
+
+//@ func (*queue).len(q)
+//@   ensures result == q_len(q)
+//@   modifies nothing
+
+//@ func (*queue).empty(q)
+//@   requires q_wf(q)
+//@   ensures result == (q_len(q) == 0)
+//@   modifies nothing
+
+// ---- a linear stage: flush in FIFO order, within downstream demand ------------------
+//@ spec func fa_wf(a *flowActor) bool = 0 <= a.outputBuf.head && a.outputBuf.head <= len(a.outputBuf.data)
+//@ spec func fa_len(a *flowActor) int = len(a.outputBuf.data) - a.outputBuf.head
+
+//@ ghost local fl_completes int
+//@ func (*flowActor).tryFlushOutput(a, rctx)
+//@   requires fa_wf(a) && a.tracer == nil
+//@   preserve flowActor.outputBuf, flowActor.downstreamDemand, flowActor.seqNo, flowActor.completing, flowActor.downstream, flowActor.tracer
+//@   ghost entry fl_completes = 0
+//@   loop 1 invariant flushed-a-prefix: fa_wf(a) && a.tracer == nil && a.completing == old(a.completing) && a.downstream == old(a.downstream) && a.downstreamDemand <= old(a.downstreamDemand) && fa_len(a) == old(fa_len(a)) - int(old(a.downstreamDemand) - a.downstreamDemand) && a.seqNo == old(a.seqNo) + uint64(old(a.downstreamDemand) - a.downstreamDemand)
+//@   loop 1 invariant rest-is-the-old-suffix: forall i int :: 0 <= i && i < fa_len(a) ==> a.outputBuf.data[a.outputBuf.head + i] == old(a.outputBuf.data[a.outputBuf.head + int(a.downstreamDemand - now(a.downstreamDemand)) + i])
+//@   at call 1 of (*ReceiveContext).Tell assert emits-the-front-in-order: arg2.(*streamElement).value == old(a.outputBuf.data[a.outputBuf.head + int(a.downstreamDemand - now(a.downstreamDemand))])
+//@   at call 1 of (*ReceiveContext).Tell assert emits-only-within-demand-to-downstream: a.downstreamDemand > 0 && fa_len(a) >= 0 && arg1 == a.downstream
+//@   at call 1 of (*ReceiveContext).Tell assert numbered-consecutively: arg2.(*streamElement).seqNo == a.seqNo
+//@   at call 2 of (*ReceiveContext).Tell assert completes-only-when-drained: a.completing && fa_len(a) == 0 && arg1 == a.downstream && is(arg2, *streamComplete)
+//@   at call 2 of (*ReceiveContext).Tell ghost fl_completes = fl_completes + 1
+//@   ensures stops-at-demand-or-empty: a.downstreamDemand <= 0 || fa_len(a) == 0
+//@   ensures never-overdraws-demand: fa_wf(a)
+//@   ensures completes-at-most-once: fl_completes <= 1
+//@ structural mapwriters flowActor.outputBuf: (*flowActor).Receive, (*flowActor).tryFlushOutput
+//@ structural writers flowActor.downstreamDemand: (*flowActor).Receive, (*flowActor).tryFlushOutput
+//@ structural writers flowActor.seqNo: (*flowActor).tryFlushOutput
+//@ structural writers flowActor.completing: (*flowActor).Receive
+//@ structural writers flowActor.downstream: (*flowActor).Receive
+//@ structural writers flowActor.tracer: newFlowActor
+
+// an element's outputs enter the buffer in the order the transform returned them,
+// behind what is already buffered; a completion is forwarded only once drained
+//@ func (*flowActor).Receive(a, rctx)
+//@   requires fa_wf(a) && a.tracer == nil && rctx != nil && a.metrics != nil
+//@   preserve flowActor.outputBuf, flowActor.downstreamDemand, flowActor.seqNo, flowActor.completing, flowActor.downstream, flowActor.tracer
+//@   loop 1 invariant retry-leaves-the-buffer-alone: fa_wf(a) && a.tracer == nil && fa_len(a) == old(fa_len(a)) && a.outputBuf.head == old(a.outputBuf.head) && forall i int :: 0 <= i && i < old(fa_len(a)) ==> a.outputBuf.data[a.outputBuf.head + i] == old(a.outputBuf.data[a.outputBuf.head + i])
+//@   loop 2 invariant pushes-outputs-in-order: -1 <= rangeindex && rangeindex < len(outs) && fa_wf(a) && a.tracer == nil && fa_len(a) == old(fa_len(a)) + rangeindex + 1 && forall j int :: 0 <= j && j <= rangeindex ==> a.outputBuf.data[a.outputBuf.head + old(fa_len(a)) + j] == outs[j]
+//@   loop 2 invariant keeps-what-was-buffered: forall i int :: 0 <= i && i < old(fa_len(a)) ==> a.outputBuf.data[a.outputBuf.head + i] == old(a.outputBuf.data[a.outputBuf.head + i])
+
+// ---- per-element semantics of the stateless stages -------------------------------------
+// Filter: exactly one output when the predicate holds, none otherwise
+//@ ghost local flt_keep bool
+//@ func Filter$1$1(v)
+//@   ghost entry flt_keep = false
+//@   at call 1 of dynamic ghost flt_keep = result
+//@   ensures keeps-exactly-what-the-predicate-accepts: result1 == nil ==> (flt_keep ==> len(result0) == 1 && result0[0] == v) && (!flt_keep ==> len(result0) == 0)
+
+// FlatMap / Flatten: one output per produced element, in order
+//@ ghost local fm_n int
+//@ func FlatMap$1$1(v)
+//@   ghost entry fm_n = 0
+//@   at call 1 of dynamic ghost fm_n = len(result)
+//@   loop 1 invariant copies-in-order: -1 <= rangeindex && rangeindex < len(outs) && fm_n == len(outs)
+//@   ensures all-outputs-in-order: result1 == nil ==> len(result0) == fm_n
+
+//@ func Flatten$1$1(v)
+//@   loop 1 invariant copies-in-order: -1 <= rangeindex && rangeindex < len(slice)
+
+// Scan: exactly one output per element (the new accumulator)
+//@ func Scan$1$1(v)
+//@   ensures one-output-per-element: result1 == nil ==> len(result0) <= 1
+
+// Deduplicate: drops an element exactly when it equals the previous one
+//@ func Deduplicate$1$1(v)
+//@   ensures at-most-one-output: len(result0) <= 1
